@@ -20,10 +20,10 @@ func Spec_omitCriteria(
 	current *model.DecisionMakingParams,
 	listener *model.BiasListener,
 ) (*model.DecisionMakingParams, *model.Criteria) {
-	omissionPartition := parsedProps.SplitCriteriaByOrdering(omissionOrderCriteria)
+	omissionPartition := parsedProps.Spec_SplitCriteriaByOrdering(omissionOrderCriteria)
 	resultMethodParameters := (*listener).OnCriteriaRemoved(omissionPartition.Right, current.MethodParameters)
-	consideredAlternatives := model.PreserveCriteriaForAlternatives(&current.ConsideredAlternatives, omissionPartition.Right)
-	notConsideredAlternatives := model.PreserveCriteriaForAlternatives(&current.NotConsideredAlternatives, omissionPartition.Right)
+	consideredAlternatives := model.Spec_PreserveCriteriaForAlternatives(&current.ConsideredAlternatives, omissionPartition.Right)
+	notConsideredAlternatives := model.Spec_PreserveCriteriaForAlternatives(&current.NotConsideredAlternatives, omissionPartition.Right)
 	return &model.DecisionMakingParams{
 		NotConsideredAlternatives: *notConsideredAlternatives,
 		ConsideredAlternatives:    *consideredAlternatives,
